@@ -163,6 +163,13 @@ class Stmt:
             self.unprefixed = [1]
             self.starts = [0, 3]
             self.out = '2\n'
+        elif kind == 'inline_skip_triple_blank':
+            # (C01 only, never enabled) a statement switched off by an inline directive on its LAST line, an empty line before it
+            self.lines = ["print(t(%d), '''first" % k, '', "  third''')  # xdoctest: +SKIP"]
+            self.unprefixed = [1] if k % 2 else []
+        elif kind == 'inline_skip_bracket_blank':
+            self.lines = ['print([t(%d),' % k, '', '       0])  # xdoctest: +SKIP']
+            self.unprefixed = [1] if k % 2 else []
         elif kind == 'triple_late_unprefixed':
             # the string opens on a continuation line of the statement; its further lines carry no prompt
             self.lines = ['z%d = "{}|{}".format(t(%d),' % (k, k), "    '''first", '  body %d' % k, " - leaf", "last''')"]
